@@ -44,6 +44,9 @@ func oracleC14(x *Exec, so *StepObs) {
 	}
 	parts := strings.Split(op.Description, ":")
 	violates, subEnabled, rule := parts[1], parts[2] == "true", parts[3]
+	if violates == "leaf" {
+		violates = "sub" // judged like a subchart violation; the chart named is the leaf
+	}
 	cs := &x.Plan.Charts[op.Chart]
 	fail := func(clause, cause, detail string) {
 		x.Violate(Violation{P, clause, op.Op, cause, detail, so.Index})
@@ -72,6 +75,9 @@ func oracleC14(x *Exec, so *StepObs) {
 			name = cs.Subcharts[0].Name
 			if cs.Subcharts[0].Alias != "" {
 				name = cs.Subcharts[0].Alias
+			}
+			if parts[1] == "leaf" {
+				name = cs.Subcharts[0].Sub[0].Name
 			}
 		}
 		if !strings.Contains(r.Err, name+":") || !strings.Contains(r.Err, "schema") {
@@ -189,7 +195,47 @@ func genC14(seed, index uint64, tier string) *Plan {
 		}
 		return
 	}
-	shape := g.N(4)
+	shape := g.N(5)
+	if shape == 4 {
+		// three levels: root -> middle (with or without its own schema) -> leaf with a schema
+		mid := SubchartSpec{Name: "middle", Values: map[string]interface{}{"m": "x"}}
+		if g.Chance(0.5) {
+			mid.Schema = `{"type":"object"}`
+		}
+		mid.Slots = []ResSlot{{Kind: "ConfigMap", Name: "mid-cm", File: "m.yaml", Marker: g.Marker(), Data: map[string]string{"m": "$m"}}}
+		leaf := SubchartSpec{Name: "leaf", Values: map[string]interface{}{"s": "fine", "size": float64(1)}, Schema: c14SubSchema}
+		leaf.Slots = []ResSlot{{Kind: "ConfigMap", Name: "leaf-cm", File: "l.yaml", Marker: g.Marker(), Data: map[string]string{"s": "$s"}}}
+		mid.Sub = []SubchartSpec{leaf}
+		cs := ChartSpec{Name: "demo", Version: "2.0.0", Values: map[string]interface{}{"name": "ok"}, Subcharts: []SubchartSpec{mid}}
+		cs.Slots = []ResSlot{{Kind: "ConfigMap", Name: "cm1", File: "a.yaml", Marker: g.Marker(), Data: map[string]string{"k": "$name"}}}
+		p.Charts = []ChartSpec{cs}
+		vals := map[string]interface{}{}
+		v, rule := "none", "none"
+		if g.Chance(0.6) {
+			v = "leaf"
+			switch g.N(3) {
+			case 0:
+				vals["middle"] = map[string]interface{}{"leaf": map[string]interface{}{"s": float64(7)}}
+				rule = "type"
+			case 1:
+				vals["middle"] = map[string]interface{}{"leaf": map[string]interface{}{"size": float64(99)}}
+				rule = "maximum"
+			case 2:
+				vals["middle"] = map[string]interface{}{"leaf": map[string]interface{}{"s": nil}}
+				rule = "required"
+			}
+		}
+		op := OpSpec{Op: "install", Chart: 0, Values: vals, SkipSchema: g.Chance(0.15)}
+		if g.Chance(0.3) {
+			op.DryRun, op.DryRunOption, op.ClientOnly, op.Replace = true, "true", true, true
+		}
+		op.Description = fmt.Sprintf("c14:%s:true:%s", v, rule)
+		p.Steps = append(p.Steps, Step{Op: &op})
+		p.Variant = "shape4-three-levels"
+		p.Policy = "uniform"
+		p.Schedule = g.Schedule(16)
+		return p.Clone()
+	}
 	switch shape {
 	case 0: // direct install of the schema'd version
 		vals, v, rule, se := draw()
